@@ -52,6 +52,16 @@ def make_image(producer, length):
 
 
 def run_reads(image, reads, log=None):
+    """executes a read history under a wall-clock backstop"""
+    from ..steps import WallLimit, StepBudgetExceeded
+    try:
+        with WallLimit(30.0):
+            return _run_reads(image, reads, log)
+    except StepBudgetExceeded as ex:
+        return [(reads[0] if reads else None, ("error", "DidNotTerminate", str(ex)[:100]))], SimFile(image)
+
+
+def _run_reads(image, reads, log=None):
     """executes a read history; returns list of (size, returned bytes | ('error', type, text))"""
     m = sut.load()
     f = SimFile(image, log=log, name="disk")
@@ -100,11 +110,15 @@ def judge_reads(image, reads, log=None):
 
 
 def run_validate(image):
+    from ..steps import WallLimit, StepBudgetExceeded
     m = sut.load()
     out = io.BytesIO()
     try:
-        m["mciipm"].unblock_1014(SimFile(image, name="disk"), out)
+        with WallLimit(20.0):
+            m["mciipm"].unblock_1014(SimFile(image, name="disk"), out)
         return ("ok", out.getvalue())
+    except StepBudgetExceeded as ex:
+        return ("foreign", "DidNotTerminate", str(ex)[:100])
     except m["MciIpmDataError"] as ex:
         return ("MciIpmDataError", str(ex)[:100])
     except Exception as ex:
